@@ -69,7 +69,30 @@ def expand(kv):
             break
     if stop is not None:
         out["need_from"] = str(stop)
+    # the reference interpreter's verdicts (model side only): s<k>=class|value|trace|vars or "na"
+    for k in [x for x in kv if x[0] == "s" and x[1:].isdigit()]:
+        out.pop(k)
+        if kv[k] != "na":
+            p = kv[k].split("|")
+            out["spec%s" % k[1:]] = dict(zip(("class", "value", "trace", "vars"), p))
     return out
+
+def spec_mismatches(m):
+    """Where the reference interpreter (Spec/Exec.v) and the byte-code model disagree (both inside the model)."""
+    bad = []
+    for k, sp in m.items():
+        if not k.startswith("spec"):
+            continue
+        i = k[4:]
+        pre = "o%s." % i
+        if pre + "class" not in m:
+            continue
+        for f in ("class", "value", "trace", "vars"):
+            if f == "value" and pre + "value" not in m:
+                continue
+            if m.get(pre + f) != sp.get(f):
+                bad.append("%s%s: byte-code model %s, reference interpreter %s" % (pre, f, m.get(pre + f), sp.get(f)))
+    return bad
 
 def obs_suffix(o):
     return o.split(".", 1)[1] if "." in o else o
@@ -166,6 +189,8 @@ def run_check(prop, tier, seed):
     model = {k: expand(v) for k, v in model.items()}
 
     n_eval = 0
+    spec_checked = 0
+    spec_bad = []
     dropped = 0
     disagreements = []
     oracle_viol = []
@@ -189,6 +214,10 @@ def run_check(prop, tier, seed):
         if prop.model_dropped(m):
             dropped += 1
             continue
+        sm = spec_mismatches(m)
+        spec_checked += sum(1 for k in m if k.startswith("spec"))
+        if sm:
+            spec_bad.append((c, sm, g, m))
         keys = [o for o in prop.compare_obs if o in g or o in m]
         if prop.compare_run:
             lim = int(m["need_from"]) if "need_from" in m else 10 ** 9
@@ -217,6 +246,8 @@ def run_check(prop, tier, seed):
                                         go={o: g.get(o) for o in diff}, model={o: m.get(o) for o in diff})) + "\n")
             for (c, d, g, m) in oracle_viol:
                 f.write(json.dumps(dict(script=vlib.unhxs(c.fields.get("script", "")), fields=c.fields, oracle=d)) + "\n")
+            for (c, sm, g, m) in spec_bad:
+                f.write(json.dumps(dict(script=vlib.unhxs(c.fields.get("script", "")), fields=c.fields, oracle="SPEC: " + "; ".join(sm))) + "\n")
     # ---- decide
     reported = 0
     seen_keys = set()
@@ -262,6 +293,10 @@ def run_check(prop, tier, seed):
                "implementation and model differ on internal stage(s) %s in %d case(s); no observable of the property differs on any explored input" % (",".join(diff), len(internal)),
                g, m, no_input=True, theorem="correspondence stage(s) " + ",".join(diff))
     infra = []
+    if spec_bad:
+        c, sm, g, m = spec_bad[0]
+        report("correspondence-broken", c, "the reference interpreter (Spec/Exec.v) and the byte-code model disagree in %d case(s): %s" % (len(spec_bad), "; ".join(sm[:3])),
+               g, m, no_input=True, theorem="C02 block_compile_correct (model vs reference semantics)")
     if not st["harness"]:
         infra.append("harness does not build from /repo: " + st["log"].get("harness", "")[-500:])
     if lines and st["harness"] and gocrash:
@@ -296,6 +331,7 @@ def run_check(prop, tier, seed):
         evaluations=n_eval, distinct_nontrivial=len(distinct), rule=prop.rule, samples=samples,
         traces_validated_against_impl=n_eval - dropped, model_dropped=dropped,
         disagreements=len(disagreements), oracle_violations=len(oracle_viol),
+        reference_interpreter_runs=spec_checked, reference_interpreter_mismatches=len(spec_bad),
         streams={k: dict(cases=v[0], distinct_nontrivial=v[1]) for k, v in streams.items()},
         known_findings_hit=known_lines, build=dict((k, st[k]) for k in ("harness", "tables", "coq_make_rc", "extract", "driver")),
         exhaustive=False)
